@@ -55,6 +55,18 @@ def rule_R1_format(text, mask, ctx):
     return eds
 
 
+def rule_R1b_println(text, mask, ctx):
+    """println!(..) / print!(..) -> vprint(): printed text is not verified"""
+    eds = []
+    for m in re.finditer(r'(?<![\w])(println|print|eprintln)!\s*\(', mask):
+        close = _balanced_call(mask, m.end() - 1)
+        eds.append((m.start(), close + 1, 'crate::vprint()', 'R1'))
+    for m in re.finditer(r'(?<![\w])include_str!\s*\(', mask):
+        close = _balanced_call(mask, m.end() - 1)
+        eds.append((m.start(), close + 1, '""', 'R1'))
+    return eds
+
+
 def rule_R16_doc(text, mask, ctx):
     """doc comments and derive/allow attributes are dropped (no executable meaning)"""
     eds = []
@@ -187,7 +199,7 @@ def rule_R17_method_stubs(text, mask, ctx):
     return eds
 
 
-RULES = [rule_R7_static, rule_R0_paths, rule_R1_format, rule_R16_doc, rule_R2_chars_collect, rule_R3_streq,
+RULES = [rule_R7_static, rule_R0_paths, rule_R1_format, rule_R1b_println, rule_R16_doc, rule_R2_chars_collect, rule_R3_streq,
          rule_R4a_to_string, rule_R4b_parse_i32, rule_R4c_string_from, rule_R8_closure_underscore, rule_R9_any, rule_R11_get_mut, rule_R10_halt, rule_R17_method_stubs]
 
 
@@ -573,6 +585,10 @@ class Gen:
         self.ledger.append(dict(fn=fnname, label=fnname + '.safety', kind='implicit', props=props,
                                 text='no out-of-bounds / unwrap-on-None / overflow / reachable panic; termination of loops with decreases',
                                 tmpl_line=spec['tmpl_line']))
+        if (' for ' in sel and sel.endswith('::run')) and not spec.get('rename'):
+            self.ledger.append(dict(fn=fnname, label=fnname + '.run_rel', kind='ensures', props=props,
+                                    text='trait postcondition: run satisfies this command\'s run_rel (its effect on variables / state / result as specified)',
+                                    tmpl_line=spec['tmpl_line'] + '#run_rel'))
         if spec['head']:
             ann(bo if closure_mode else bo + 1, spec['head'], 'ghost', 'head')
         # loops
